@@ -237,6 +237,9 @@ func run(c *rig.Ctx) {
 			}
 		}
 	}
+	// a ROM-only cartridge whose image is larger than 32 KiB has no registers either: the first
+	// two banks stay where they are whatever is stored
+	cfgs = append(cfgs, cfg{0x00, 1, false}, cfg{0x00, 2, false}, cfg{0x00, 3, true})
 	// largest images last within a shard keeps peak memory low
 	c.Part("configs", int64(len(cfgs)), func(i int64, r *rig.Rng) {
 		cf := cfgs[i]
